@@ -145,6 +145,151 @@ def run(ctx):
                 if ev != kind:
                     ctx.finding(f'b/event/{fn_n}/{cn}', f'{fn_n}: {cn.rsplit("::",1)[1]} fires TriggerEvent::{ev} in the {kind} executor', f'{f.file}:{t["l"]}')
 
+    # ---------------------------------------------------------------- (e) absence proofs are unfiltered
+    ctx.rule('C34.e', 'a proof-of-absence guard (the test that lets a fast path skip all trigger firing, statement triggers included) '
+             'asks get_triggers_for_table for the event of its executor and consumes the result only through an emptiness test: '
+             'no closure-taking adaptor (any/filter/find/...) may narrow it to a subset of the triggers')
+    FILTERING = ('any', 'all', 'filter', 'find', 'find_map', 'filter_map', 'position', 'skip', 'skip_while', 'take_while', 'map_while',
+                 'nth', 'step_by', 'rposition', 'try_fold', 'fold')
+    guards_seen = 0
+    for fn_n, kind in ((INS, 'Insert'), (EX + 'truncate_validation::has_delete_triggers', 'Delete')):
+        f = ctx.fn(fn_n)
+        defs = defs_of(f)
+        for i, t in f.calls():
+            if callee_name(t) != GET_TRIG:
+                continue
+            guards_seen += 1
+            ev = agg_variant(f, t['args'][2], defs, 'TriggerEvent') if agg_variant(f, t['args'][2], defs, 'option::Option') == 'Some' else None
+            # the Option<TriggerEvent> argument: Some(Event)
+            evl = None
+            l = op_local(t['args'][2])
+            ds = defs.get(l, [])
+            if len(ds) == 1 and ds[0][1] == 'assign' and ds[0][2]['r'] == 'agg' and ds[0][2].get('variant') == 'Some':
+                evl = agg_variant(f, ds[0][2]['ops'][0], defs, 'TriggerEvent')
+            ctx.instance(f'e/{fn_n}', {'rule': 'C34.e', 'fn': fn_n, 'event': evl})
+            if evl != kind:
+                ctx.finding(f'e/event/{fn_n}', f'{fn_n}: the trigger-absence guard asks for event {evl}, the fast path it guards is a {kind}', f'{f.file}:{t["l"]}')
+            # consumers of the iterator: calls that take (a reference to) the result local
+            it = t['d'][0]
+            aliases = {it}
+            changed = True
+            while changed:
+                changed = False
+                for b in f.blocks:
+                    for st in b['s']:
+                        if 'd' in st and not st['d'][1] and st['d'][0] not in aliases:
+                            v = st['v']
+                            src = v['p'][0] if v['r'] == 'ref' else (op_local(v['a']) if v['r'] in ('use', 'cast') else None)
+                            if src in aliases:
+                                aliases.add(st['d'][0]); changed = True
+            for j, t2 in f.calls():
+                if j == i or not t2['args'] or op_local(t2['args'][0]) not in aliases:
+                    continue
+                short = (callee_name(t2) or '?').rsplit('::', 1)[-1].split('<')[0]
+                closure_arg = any((f.locals[op_local(a)] if op_local(a) is not None else '').find('{closure@') >= 0 for a in t2['args'][1:])
+                if short in FILTERING or closure_arg:
+                    ctx.finding(f'e/filtered/{fn_n}/{short}', f'{fn_n}: the trigger-absence guard narrows the trigger list with {short}(..) before '
+                                f'testing for emptiness: triggers that do not pass the filter (e.g. statement-level ones) are skipped by the fast path',
+                                f'{f.file}:{t2["l"]}')
+    ctx.floor('C34.e trigger-absence guards', guards_seen, 2)
+    ctx.require(any(callee_name(t) == EX + 'truncate_validation::has_delete_triggers' for _, t in ctx.fn(CAN_TRUNC).calls()),
+                'can_use_truncate no longer calls has_delete_triggers (absence guard moved: re-derive clause e)')
+
+    # ---------------------------------------------------------------- (f) BEFORE / mutation / AFTER range over the same rows
+    ctx.rule('C34.f', 'in UPDATE and DELETE the BEFORE-row loop, the mutation and the AFTER-row loop range over the same collection of '
+             'affected rows; a derived collection must be pushed exactly on every iteration path of a loop over the original and '
+             'is not otherwise narrowed')
+    from ..engine.linear import Encoder
+    from ..engine.paths import loop_headers, search
+    for fn_n in (UPD, DEL):
+        f = ctx.fn(fn_n)
+        g = cfg(f)
+        enc = Encoder(prog, f)
+        fdefs = defs_of(f)
+        loop_of = enc.loop_of_block()
+        lh = loop_headers(f)
+
+        def loop_root_of_call(nm):
+            out = []
+            for i, t in f.calls():
+                if callee_name(t) == nm:
+                    L = loop_of.get(i)
+                    out.append((i, L, enc.loop_root(L) if L is not None else None))
+            return out
+        bl = loop_root_of_call(BEFORE)
+        al = loop_root_of_call(AFTER)
+        ctx.require(len(bl) == 1 and len(al) == 1 and bl[0][1] is not None and al[0][1] is not None,
+                    f'{fn_n}: expected one BEFORE and one AFTER row firing, each inside a loop (found {bl} / {al})')
+        rb, ra = bl[0][2], al[0][2]
+        ctx.instance(f'f/{fn_n}', {'rule': 'C34.f', 'fn': fn_n, 'before_loop_over': rb, 'after_loop_over': ra})
+        if rb == ra:
+            continue
+        # AFTER ranges over a derived vec: find the local of that name and its pushes
+        cand = [l for l, n in f.names.items() if n == ra]
+        ok = False
+        why = f'the AFTER loop ranges over `{ra}`, the BEFORE loop over `{rb}`'
+        for V in cand:
+            pushes = []
+            others = []
+            for i, t in f.calls():
+                if not t['args']:
+                    continue
+                a0 = t['args'][0]
+                l0 = op_local(a0)
+                # &mut V taken just before the call
+                src = None
+                for (_b, kind_, v_) in fdefs.get(l0, []):
+                    if kind_ == 'assign' and v_['r'] == 'ref' and v_.get('mut') and not v_['p'][1]:
+                        src = v_['p'][0]
+                if src != V:
+                    continue
+                short = (callee_name(t) or '?').rsplit('::', 1)[-1]
+                (pushes if short == 'push' else others).append((i, short))
+            if others:
+                why = f'`{ra}` is also changed by {sorted({s for _, s in others})}'
+                continue
+            for (pb, _) in pushes:
+                L = loop_of.get(pb)
+                if L is None or enc.loop_root(L) != rb:
+                    why = f'`{ra}` is filled in a loop over `{enc.loop_root(L) if L is not None else None}`, not `{rb}`'
+                    continue
+                sw, none_t = lh[L]
+                body = [s for s in g.succ[sw] if s != none_t]
+                reached, _ = search(f, body, {pb}, loop_model=False)
+                if L in reached:
+                    why = (f'`{ra}` is not pushed on every iteration of the loop over `{rb}` (some path reaches the next iteration without '
+                           f'the push): rows skipped there get their BEFORE trigger but never their AFTER trigger')
+                else:
+                    ok = True
+        if not ok:
+            ctx.finding(f'f/{fn_n}/after-rows', f'{fn_n}: {why}', f'{f.file}:{f.blocks[al[0][0]]["t"]["l"]}')
+
+    # ---------------------------------------------------------------- (g) the INSERT compensation removes by position
+    ctx.rule('C34.g', 'the compensation after a failed AFTER INSERT trigger removes the row at the remembered position: the predicate '
+             'handed to delete_where must not inspect row contents (rows equal to the new one would be destroyed too)')
+    f = ctx.fn(INS)
+    comp = [(i, t) for i, t in f.calls() if callee_name(t) == M.T + 'delete_where']
+    ctx.instance('g/insert-compensation', {'rule': 'C34.g', 'delete_where_sites': len(comp)})
+    for i, t in comp:
+        # locate the closure body: the closure defined at the call's source line
+        cbody = None
+        for c in prog.children(f):
+            if c.is_closure() and abs(c.line - t['l']) <= 1:
+                cbody = c
+        ctx.require(cbody is not None, 'INSERT compensation: closure passed to delete_where not found')
+        uses_row = False
+        for b in cbody.blocks:
+            for st in b['s']:
+                txt = repr(st)
+                if "'c': [2," in txt or "'m': [2," in txt or "'p': [2," in txt:
+                    uses_row = True
+            tt = b['t']
+            if tt['k'] == 'call' and any(op_local(a) == 2 for a in tt['args']):
+                uses_row = True
+        if uses_row:
+            ctx.finding('g/insert-compensation/by-content', 'execute_insert_internal: the rollback after a failed AFTER INSERT trigger selects '
+                        'rows to delete by their contents; pre-existing rows equal to the new row are deleted as well', f'{f.file}:{t["l"]}')
+
     # ---------------------------------------------------------------- (b) statement-level triggers
     ctx.rule('C34.b', 'each of the three DML executors calls execute_before_statement_triggers and execute_after_statement_triggers '
              'exactly once, outside every loop, before resp. after its row mutations')
